@@ -1,10 +1,12 @@
 (* Extraction of the executable models (ExtrOcamlBasic only; Z, N, nat stay
    the extracted inductives).  Roots are listed explicitly. *)
 From Coq Require Import Extraction ExtrOcamlBasic.
-From VV Require Import SrcFacts Bits Comment.
+From VV Require Import SrcFacts Bits Comment Blocking.
 Extraction Language OCaml.
 Extraction "model.ml"
   (* SrcFacts *) encode_vendor_string general_vendor_string
   (* Bits *) bits_of val_of bread blook badv bits_of_bytes bytes_of_bits le32 read32 to_int32
   (* Comment *) toupper tagcompare matches query query_count query_value comment_add comment_add_tag
-     pack_comment headerin_comment.
+     pack_comment headerin_comment
+  (* Blocking *) enc_init enc_buffer enc_wrote enc_blockout enc_run dec_init dec_restart dec_blockin
+     dec_pcmout dec_read dec_run dec_lapout to_dblock.
